@@ -14,12 +14,13 @@ use std::task::{Context, Poll};
 use tokio::io::AsyncRead;
 use tokio::net::ToSocketAddrs;
 
-#[derive(Debug)]
+/// Field-less (see quick-xml model errors.rs for why).
+#[derive(Debug, Clone, Copy, PartialEq, Eq)]
 pub enum Error {
     SendError,
     Disconnect,
     NotAuthenticated,
-    IO(std::io::Error),
+    IO,
 }
 impl fmt::Display for Error {
     fn fmt(&self, f: &mut fmt::Formatter<'_>) -> fmt::Result {
@@ -29,7 +30,8 @@ impl fmt::Display for Error {
 impl std::error::Error for Error {}
 impl From<std::io::Error> for Error {
     fn from(e: std::io::Error) -> Self {
-        Error::IO(e)
+        std::mem::forget(e);
+        Error::IO
     }
 }
 
